@@ -65,17 +65,18 @@ def irf(du):
 def analyse(phi, energy, weights, du, acceptcorr, edges):
     from ixpeobssim.evt.kislat2015 import xStokesAnalysis as SA
     aeff, modf = irf(du)
-    w = None if weights is None else numpy.array(weights, dtype=float)
+    w = None if weights is None else (weights if isinstance(weights, numpy.ndarray) else numpy.array(weights, dtype=float))
     q, u = SA.stokes_q(phi), SA.stokes_u(phi, None)      # unweighted columns; the weights are passed separately, as xpbin does
-    an = SA(q, u, numpy.array(energy, dtype=float), modf, aeff, 1000., None if w is None else w.copy(), acceptcorr)
+    an = SA(q, u, numpy.array(energy, dtype=float), modf, aeff, 1000., w, acceptcorr)       # the caller's weight array itself, as a script re-using its arrays does
     return an.polarization_table(numpy.array(edges), degrees=True)
 
 
 def o_rotation(a):
     """Cubes before/after rotating every PHI by d."""
     phi = numpy.array(a['phi'])
-    t0 = analyse(phi, a['energy'], a['weights'], a['du'], a['acceptcorr'], a['edges'])
-    t1 = analyse(phi + a['d'], a['energy'], a['weights'], a['du'], a['acceptcorr'], a['edges'])
+    wts = None if a['weights'] is None else numpy.array(a['weights'], dtype=float)      # one array object for both analyses
+    t0 = analyse(phi, a['energy'], wts, a['du'], a['acceptcorr'], a['edges'])
+    t1 = analyse(phi + a['d'], a['energy'], wts, a['du'], a['acceptcorr'], a['edges'])
     worst = {}
     ok = True
     for name in ('COUNTS', 'I', 'I_ERR', 'W2', 'MU', 'N_EFF', 'MDP_99', 'PD', 'PD_ERR', 'PA_ERR', 'E_MEAN'):
@@ -116,8 +117,28 @@ def o_alignapp(a):
                                     pi=g.integers(50, 200, n), phi=g.uniform(-math.pi, math.pi, n),
                                     ra=ra0 + g.normal(0, 0.02, n) / math.cos(math.radians(dec0)), dec=dec0 + g.normal(0, 0.02, n))
             paths.append(p)
+        maps = None
+        if a['mode'] in ('QU', 'PDA'):
+            # model maps (64 x 64 pixels of 6") centred on the first field: polarized on one side, exactly unpolarized on the other, and
+            # smaller than the field, so that some events fall where the model carries no polarization or outside its footprint
+            from astropy.io import fits as _f
+            ny = nx = 64
+            yy, xx = numpy.mgrid[0:ny, 0:nx]
+            pdm = numpy.where(xx < nx // 2, 0.2 + 0.5 * yy / ny, 0.)
+            pam = numpy.radians(20. + 100. * xx / nx)
+            qm, um = pdm * numpy.cos(2. * pam), pdm * numpy.sin(2. * pam)
+            h = _f.Header()
+            h['CTYPE1'], h['CTYPE2'] = 'RA---TAN', 'DEC--TAN'
+            h['CRPIX1'], h['CRPIX2'] = 0.5 * (nx + 1), 0.5 * (ny + 1)
+            h['CRVAL1'], h['CRVAL2'] = a['centres'][0]
+            h['CDELT1'], h['CDELT2'] = -6. / 3600., 6. / 3600.
+            maps = []
+            for nm, arr in ((('q', qm), ('u', um)) if a['mode'] == 'QU' else (('pd', pdm), ('pa', pam))):
+                mp = os.path.join(d, '%s.fits' % nm)
+                _f.PrimaryHDU(data=arr, header=h).writeto(mp, overwrite=True)
+                maps.append(mp)
         for order in a['orders']:
-            args = [paths[i] for i in order] + ['--mode', a['mode'], '--overwrite', 'True']
+            args = [paths[i] for i in order] + ['--mode', a['mode'], '--overwrite', 'True'] + (['--modelfiles'] + maps if maps else [])
             if a.get('ra') is not None:
                 args += ['--ra=%r' % a['ra'], '--dec=%r' % a['dec']]
             outs = xpstokesalign(**PARSER.parse_args(args).__dict__)
@@ -128,7 +149,11 @@ def o_alignapp(a):
                     q1, u1 = numpy.array(ev1['Q'], dtype=float), numpy.array(ev1['U'], dtype=float)
                 ra, dec = xEventFile(paths[i]).sky_position_data(False)      # the positions the application uses (from X, Y through the WCS)
                 c = a['centres'][i] if a.get('ra') is None else (a['ra'], a['dec'])
-                field = (xRadialPolarizationField if a['mode'] == 'RAD' else xTangentialPolarizationField)(*c)
+                if a['mode'] in ('QU', 'PDA'):
+                    from ixpeobssim.srcmodel.polarization import xStokesSkyMap
+                    field = xStokesSkyMap.load_from_qu(*maps) if a['mode'] == 'QU' else xStokesSkyMap.load_from_pda(*maps)
+                else:
+                    field = (xRadialPolarizationField if a['mode'] == 'RAD' else xTangentialPolarizationField)(*c)
                 phi0 = field.polarization_angle(ra, dec)
                 phi = 0.5 * numpy.arctan2(u0, q0)
                 eq, eu = 2. * numpy.cos(2. * (phi - phi0)), 2. * numpy.sin(2. * (phi - phi0))
@@ -168,6 +193,9 @@ def oracle(chk, budget=1):
             if a['ra'] == 0.0:                       # a centre exactly on RA = 0 (or Dec = 0): put the fields next to it
                 a['centres'] = [(float(g.uniform(0.05, 0.3)), a['dec'] + float(g.uniform(-0.2, 0.2))) for _ in range(3)]
         run_oracle(chk, 'alignapp', a, nontrivial=True)
+    for mode in ('QU', 'PDA'):
+        c0 = (float(g.uniform(5., 355.)), float(g.uniform(-60., 60.)))
+        run_oracle(chk, 'alignapp', dict(seed=int(g.integers(1, 10 ** 6)), centres=[c0, c0], mode=mode, orders=[[0], [1, 0]], ra=None, dec=None), nontrivial=True)
     m = 10 * budget if chk.tier == 'quick' else 80 * budget
     for i in range(m):
         k = int(g.integers(0, 400))
